@@ -2161,11 +2161,17 @@ class BaseInterpreter(Generic[TContext, TEvent]):
         #    configuration reflects the state of the machine as it was.
         self._record_history(states_to_exit)
 
+        # 🛑 Crucially, cancel tasks before running exit actions — and for the
+        #    whole exit set up front, as the sync engine does. Rollback re-arms
+        #    every state of the exit set; if an exit action aborted the
+        #    transition while later states still held their timers/services,
+        #    those states were armed a second time and fired twice.
+        for state in states_to_exit:
+            await self._cancel_state_tasks(state)
+
         for state in states_to_exit:
             logger.debug("⬅️  Exiting state: '%s'.", state.id)
-            # 🛑 Crucially, cancel tasks before running exit actions.
-            await self._cancel_state_tasks(state)
-            # ⚙️ Then, run the synchronous exit actions.
+            # ⚙️ Run the exit actions.
             await self._execute_actions(state.exit, trigger_event)
             # 🗑️ Finally, remove from the active set.
             self._active_state_nodes.discard(state)
